@@ -79,8 +79,9 @@ pub fn run(ctx: &mut Ctx, o: &AttackOpts) {
     let tree = TreeOpts { depth: 3, nonbmp: false, empty_arrays: true, floats: false, wild_names: false };
     for base in 0..o.n {
         let fmt = if base % 2 == 0 { Fmt::Compact } else { Fmt::Json };
-        let (key, alg) = crate::rich::ISSUER_KEYS[base % 3];
-        let (hk, hkalg) = crate::rich::HOLDER_KEYS[base % 2];
+        // bases 0..5 use the three common key types; later bases (thorough tiers) also RSA, P-384 and the wider HMACs
+        let (key, alg) = if base < 6 { crate::rich::ISSUER_KEYS[base % 3] } else { [("KR1", "RS256"), ("KP1", "ES384"), ("S2", "HS512"), ("KR2", "PS256")][(base / 6 + base) % 4] };
+        let (hk, hkalg) = if base < 6 || base % 5 != 0 { crate::rich::HOLDER_KEYS[base % 2] } else { ("HR1", "PS384") };
         // one family per case (cases are the unit of parallel trace validation): jwt | kb | disc in turn when "all"
         let fam: &str = if o.family == "all" { ["jwt", "kb", "disc"][(base / 2) % 3] } else { o.family.as_str() };
         ctx.reset("attack", &format!("base={} family={} key={} fmt={}", base, fam, key, fmt.name()));
@@ -135,7 +136,7 @@ pub fn run(ctx: &mut Ctx, o: &AttackOpts) {
         go(ctx, &m, false);
         // the SAME token again, but the resolver now returns other keys (of every family)
         if fam == "jwt" {
-            for other in ["K1", "K2", "KE1", "KE2", "S1", "S2"] {
+            for other in ["K1", "K2", "KE1", "KE2", "S1", "S2", "KR1", "KR2", "KP1", "KP2"] {
                 if other != key {
                     let raw = msg::render(&m, fmt, JsonVariant::KbAbsent);
                     verify(ctx, &VerifyArgs { raw: &raw, fmt, res: &Resolver::Const(other.to_string()), aud: None, nonce: None, pair: 0, expect: NONE.to_string() });
